@@ -66,6 +66,7 @@ def parse_lrcr_file_data(fdata: bytes, name_list: List[str]) -> Script:
     
     # Read the global vars record blocks
     script.global_vars = parse_lrcr_grb(fdata, header, name_list)
+    context.global_vars = script.global_vars
     
     # Read the function record blocks once to get the local function names
     parse_frb_func_names(fdata, header, context)
